@@ -6,7 +6,9 @@
 (*                snippets are resolved, put back afterwards)                *)
 (*   cache[k]     the caller's cache dict k: which snippet table the stored  *)
 (*                stylesheet snippets were built from, and whether a unit    *)
-(*                has been written into the stored tokens                    *)
+(*                has been written into the stored tokens (the stored list   *)
+(*                is the whole table: the scope of the caller's context -    *)
+(*                @@section / @@property - is applied to it per call)        *)
 (*   live         per-call objects still reachable from module-level state   *)
 (* One action per step of markup.parse() / stylesheet.parse().  The as-is    *)
 (* behaviours of the unrepaired code are named deviations, switched off in   *)
@@ -14,38 +16,40 @@
 (* self-test, where TLC must report the corresponding invariant.             *)
 EXTENDS Common, Json
 
-CONSTANTS Deviations,   \* subset of {"noRestore", "addsKey", "bakeUnits", "staleTable", "leakBem"}
+CONSTANTS Deviations,   \* subset of {"noRestore", "addsKey", "bakeUnits", "staleTable", "leakBem", "scopeInCache"}
           MaxCalls
 
 (* caller-owned objects: content is constant, only the parts above change.
    kind "dict" is a plain dict passed to expand(), "Config" a Config instance created once and reused *)
-Objs == {"m1", "m2", "m3", "m4", "m5", "m6", "s1", "s2", "s3", "s4", "s5", "s6"}
+Objs == {"m1", "m2", "m3", "m4", "m5", "m6", "s1", "s2", "s3", "s4", "s5", "s6", "s7", "s8"}
 Content ==
-  [ m1 |-> [type |-> "markup", kind |-> "dict",   text |-> "T",      table |-> "MS1", opt |-> "A", cache |-> "none", bem |-> FALSE],
-    m2 |-> [type |-> "markup", kind |-> "dict",   text |-> "absent", table |-> "MS0", opt |-> "A", cache |-> "none", bem |-> TRUE ],
-    m3 |-> [type |-> "markup", kind |-> "Config", text |-> "T",      table |-> "MS1", opt |-> "A", cache |-> "none", bem |-> FALSE],
-    m4 |-> [type |-> "markup", kind |-> "dict",   text |-> "absent", table |-> "MS0", opt |-> "A", cache |-> "none", bem |-> FALSE],
-    m5 |-> [type |-> "markup", kind |-> "dict",   text |-> "T",      table |-> "MS0", opt |-> "B", cache |-> "none", bem |-> TRUE ],
-    m6 |-> [type |-> "markup", kind |-> "dict",   text |-> "absent", table |-> "MS0", opt |-> "C", cache |-> "none", bem |-> FALSE],
-    s1 |-> [type |-> "css",    kind |-> "dict",   text |-> "absent", table |-> "S0",  opt |-> "A", cache |-> "k1",   bem |-> FALSE],
-    s2 |-> [type |-> "css",    kind |-> "dict",   text |-> "absent", table |-> "S0",  opt |-> "B", cache |-> "k1",   bem |-> FALSE],
-    s3 |-> [type |-> "css",    kind |-> "dict",   text |-> "absent", table |-> "S1",  opt |-> "A", cache |-> "k1",   bem |-> FALSE],
-    s4 |-> [type |-> "css",    kind |-> "dict",   text |-> "absent", table |-> "S0",  opt |-> "B", cache |-> "none", bem |-> FALSE],
-    s5 |-> [type |-> "css",    kind |-> "Config", text |-> "absent", table |-> "S0",  opt |-> "A", cache |-> "k2",   bem |-> FALSE],
-    s6 |-> [type |-> "css",    kind |-> "dict",   text |-> "absent", table |-> "S2",  opt |-> "B", cache |-> "k1",   bem |-> FALSE] ]
+  [ m1 |-> [type |-> "markup", kind |-> "dict",   text |-> "T",      table |-> "MS1", opt |-> "A", cache |-> "none", bem |-> FALSE, scope |-> "none"],
+    m2 |-> [type |-> "markup", kind |-> "dict",   text |-> "absent", table |-> "MS0", opt |-> "A", cache |-> "none", bem |-> TRUE , scope |-> "none"],
+    m3 |-> [type |-> "markup", kind |-> "Config", text |-> "T",      table |-> "MS1", opt |-> "A", cache |-> "none", bem |-> FALSE, scope |-> "none"],
+    m4 |-> [type |-> "markup", kind |-> "dict",   text |-> "absent", table |-> "MS0", opt |-> "A", cache |-> "none", bem |-> FALSE, scope |-> "none"],
+    m5 |-> [type |-> "markup", kind |-> "dict",   text |-> "T",      table |-> "MS0", opt |-> "B", cache |-> "none", bem |-> TRUE , scope |-> "none"],
+    m6 |-> [type |-> "markup", kind |-> "dict",   text |-> "absent", table |-> "MS0", opt |-> "C", cache |-> "none", bem |-> FALSE, scope |-> "none"],
+    s1 |-> [type |-> "css",    kind |-> "dict",   text |-> "absent", table |-> "S0",  opt |-> "A", cache |-> "k1",   bem |-> FALSE, scope |-> "none"],
+    s2 |-> [type |-> "css",    kind |-> "dict",   text |-> "absent", table |-> "S0",  opt |-> "B", cache |-> "k1",   bem |-> FALSE, scope |-> "none"],
+    s3 |-> [type |-> "css",    kind |-> "dict",   text |-> "absent", table |-> "S1",  opt |-> "A", cache |-> "k1",   bem |-> FALSE, scope |-> "none"],
+    s4 |-> [type |-> "css",    kind |-> "dict",   text |-> "absent", table |-> "S0",  opt |-> "B", cache |-> "none", bem |-> FALSE, scope |-> "none"],
+    s5 |-> [type |-> "css",    kind |-> "Config", text |-> "absent", table |-> "S0",  opt |-> "A", cache |-> "k2",   bem |-> FALSE, scope |-> "none"],
+    s6 |-> [type |-> "css",    kind |-> "dict",   text |-> "absent", table |-> "S2",  opt |-> "B", cache |-> "k1",   bem |-> FALSE, scope |-> "none"],
+    s7 |-> [type |-> "css",    kind |-> "dict",   text |-> "absent", table |-> "S0",  opt |-> "A", cache |-> "k1",   bem |-> FALSE, scope |-> "section"],
+    s8 |-> [type |-> "css",    kind |-> "dict",   text |-> "absent", table |-> "S0",  opt |-> "A", cache |-> "k1",   bem |-> FALSE, scope |-> "property"] ]
 Caches == {"k1", "k2"}
 MarkupAbbrs == {"ok", "wrap", "badparse", "badsnippet", "bem", "var"}          \* "var": a snippet that reads a variable of the configuration      \* "badsnippet" fails while snippets are resolved iff the table is MS1
-CssAbbrs == {"num", "tab", "plain", "badparse"}                     \* "num": a snippet supplies a number that takes the caller's unit
+CssAbbrs == {"num", "tab", "plain", "raw", "badparse"}                     \* "num": a snippet supplies a number that takes the caller's unit; "raw": a raw snippet (section scope)
 
 VARIABLES userText, cache, live, pc, cur, seenText, results, ncalls
 vars == <<userText, cache, live, pc, cur, seenText, results, ncalls>>
 
 Init == /\ userText = [c \in Objs |-> Content[c].text]
-        /\ cache = [k \in Caches |-> [table |-> "none", baked |-> "none"]]
+        /\ cache = [k \in Caches |-> [table |-> "none", baked |-> "none", scope |-> "none"]]
         /\ live = 0 /\ pc = "idle" /\ cur = <<>> /\ seenText = "absent" /\ results = <<>> /\ ncalls = 0
 
 Dev(d) == d \in Deviations
-PERR == [kind |-> "error", text |-> "", table |-> "", opt |-> ""]
+PERR == [kind |-> "error", text |-> "", table |-> "", opt |-> "", scope |-> ""]
 C == Content[cur[1]]
 Done(res) == /\ results' = Append(results, [c |-> cur[1], ab |-> cur[2], res |-> res])
              /\ pc' = "idle" /\ cur' = <<>>
@@ -77,7 +81,7 @@ RestoreText == /\ pc = "transformed"
                /\ userText' = IF seenText = "absent"
                               THEN (IF Dev("addsKey") THEN [userText EXCEPT ![cur[1]] = "None"] ELSE userText)
                               ELSE [userText EXCEPT ![cur[1]] = seenText]
-               /\ Done([kind |-> "markup", text |-> seenText, table |-> C.table, opt |-> C.opt])
+               /\ Done([kind |-> "markup", text |-> seenText, table |-> C.table, opt |-> C.opt, scope |-> "none"])
                /\ UNCHANGED <<cache, live, seenText, ncalls>>
 
 (* -------------------------------------------------------- stylesheet.parse() *)
@@ -85,17 +89,19 @@ CacheLookup == /\ pc = "begun" /\ C.type = "css"
                /\ IF cur[2] = "badparse"
                   THEN \* snippets are converted (and cached) before the abbreviation is parsed
                        /\ cache' = IF C.cache # "none" /\ (cache[C.cache].table = "none" \/ (~Dev("staleTable") /\ cache[C.cache].table # C.table))
-                                   THEN [cache EXCEPT ![C.cache] = [table |-> C.table, baked |-> "none"]] ELSE cache
+                                   THEN [cache EXCEPT ![C.cache] = [table |-> C.table, baked |-> "none", scope |-> C.scope]] ELSE cache
                        /\ Done(PERR) /\ UNCHANGED <<userText, live, seenText, ncalls>>
                   ELSE /\ cache' = IF C.cache # "none" /\ (cache[C.cache].table = "none" \/ (~Dev("staleTable") /\ cache[C.cache].table # C.table))
-                                   THEN [cache EXCEPT ![C.cache] = [table |-> C.table, baked |-> "none"]] ELSE cache
+                                   THEN [cache EXCEPT ![C.cache] = [table |-> C.table, baked |-> "none", scope |-> C.scope]] ELSE cache
                        /\ pc' = "cached" /\ UNCHANGED <<userText, live, cur, seenText, results, ncalls>>
 ResolveNode == /\ pc = "cached"
-               /\ LET e == IF C.cache = "none" THEN [table |-> C.table, baked |-> "none"] ELSE cache[C.cache]
+               /\ LET e == IF C.cache = "none" THEN [table |-> C.table, baked |-> "none", scope |-> C.scope] ELSE cache[C.cache]
                       unit == IF cur[2] = "num" /\ e.baked # "none" THEN e.baked ELSE C.opt
                   IN /\ cache' = IF C.cache # "none" /\ cur[2] = "num" /\ Dev("bakeUnits") /\ e.baked = "none"
                                  THEN [cache EXCEPT ![C.cache].baked = C.opt] ELSE cache
-                     /\ Done([kind |-> "css", text |-> "absent", table |-> e.table, opt |-> unit])
+                     \* the scope filter runs on the list taken from the cache, per call (deviation: it ran before the list was stored)
+                     /\ Done([kind |-> "css", text |-> "absent", table |-> e.table, opt |-> unit,
+                              scope |-> IF Dev("scopeInCache") THEN e.scope ELSE C.scope])
                /\ UNCHANGED <<userText, live, seenText, ncalls>>
 
 Next == \/ \E c \in Objs, ab \in MarkupAbbrs \cup CssAbbrs : Begin(c, ab)
@@ -106,8 +112,8 @@ Spec == Init /\ [][Next]_vars
 \* what a call returns in a fresh interpreter: a function of the object's constant content and the abbreviation only
 Pure(c, ab) == IF ab = "badparse" \/ (ab = "badsnippet" /\ Content[c].table = "MS1") THEN PERR
                ELSE IF Content[c].type = "markup"
-                    THEN [kind |-> "markup", text |-> Content[c].text, table |-> Content[c].table, opt |-> Content[c].opt]
-                    ELSE [kind |-> "css", text |-> "absent", table |-> Content[c].table, opt |-> Content[c].opt]
+                    THEN [kind |-> "markup", text |-> Content[c].text, table |-> Content[c].table, opt |-> Content[c].opt, scope |-> "none"]
+                    ELSE [kind |-> "css", text |-> "absent", table |-> Content[c].table, opt |-> Content[c].opt, scope |-> Content[c].scope]
 CallerConfigStable == pc = "idle" => \A c \in Objs : userText[c] = Content[c].text
 ResultPure == \A i \in 1..Len(results) : results[i].res = Pure(results[i].c, results[i].ab)
 NoRetention == pc = "idle" => live = 0
